@@ -35,6 +35,10 @@ pub fn cube_checks(b: &Bdd, h: Term, tt: TT, n: usize, out: &mut Vec<(String, St
                 if neg.iter().any(|v| pos.contains(v)) {
                     out.push(("cubes:inconsistent".into(), format!("a cube of interpretations({},{},{}) has a variable on both sides: {:?}", h, goal, gv, (neg, pos))));
                 }
+                // documented: "it is ensured that the goal is consistent with the respective interpretation"
+                if (goal && neg.iter().any(|v| v.value() == gv)) || (!goal && pos.iter().any(|v| v.value() == gv)) {
+                    out.push(("cubes:contradict-goal".into(), format!("a cube of interpretations({},{},{}) gives the goal variable the opposite value: {:?}", h, goal, gv, (neg, pos))));
+                }
                 if neg.iter().chain(pos.iter()).any(|v| v.value() >= nn) {
                     out.push(("cubes:unknown-variable".into(), format!("a cube mentions a variable outside the diagram: {:?}", (neg, pos))));
                     continue;
